@@ -456,8 +456,8 @@ def plan(run, rng, stores):
             sizes = list(sizes) + sorted({rng.randint(1, top) for _ in range(8)} - set(sizes))
         mags = ["small", "negwide", "wide", "mixed"] + (["huge"] if fmt in ("xyz", "xyz_columns", "mol2", "json_qcschema", "fchk", "wfx") else [])
         for i, sub in enumerate(subsets):
-            for j, n in enumerate(sizes if i < 2 else ([rng.choice(sizes[:6])] if not run.thorough() else rng.sample(sizes, min(3, len(sizes))))):
-                for mag in (mags if (i < 2 and j in (0, len(sizes) - 1)) else [rng.choice(mags)]):
+            for j, n in enumerate(sizes if i < 2 else ([rng.choice(sizes[:6])] if not run.thorough() else rng.sample(sizes, min(6, len(sizes))))):
+                for mag in (mags if (i < 2 and (run.thorough() or j in (0, len(sizes) - 1))) else ([rng.choice(mags)] if not run.thorough() else rng.sample(mags, 2))):
                     if fmt == "pdb" and mag == "wide" and n > 300:
                         continue
                     tasks.append((fmt, n, sub, mag, rng.randint(0, 10**9), stores))
